@@ -4,6 +4,7 @@ import (
 	"encoding/json"
 	"fmt"
 	"net/url"
+	"strings"
 	"time"
 
 	"github.com/olareg/olareg/config"
@@ -18,8 +19,13 @@ func c07Specs(tier string) []*h.SeqSpec {
 	// A6: an artifact of I1 that is only ever addressed by its sha512 digest (push and delete)
 	a6 := f.Image("A6", mtImg, "e", nil, "I1", "application/x.test", map[string]string{"k": "a6"})
 	a6.Dig = h.Dig("sha512", a6.Data)
+	// A7: an artifact whose body omits the optional mediaType field (the type comes from Content-Type): it is listed with
+	// the type it is served as
+	a7b := f.Image("A7b", mtImg, "e", nil, "I1", "application/x.test", map[string]string{"k": "a7"})
+	f.Raw("A7", a7b, []byte(strings.Replace(string(a7b.Data), `"mediaType":"`+mtImg+`",`, "", 1)))
+	delete(f.Items, "A7b")
 	const repo = "r"
-	arts := []string{"A1", "A2", "A3", "A6"} // A1 and A3 share an artifactType: a filtered list can span pages; A6 is addressed by sha512
+	arts := []string{"A1", "A2", "A3", "A6", "A7"} // A1 and A3 share an artifactType: a filtered list can span pages; A6 is addressed by sha512
 	depth := 4
 	if tier == "thorough" {
 		arts = []string{"A1", "A2", "A3", "A4", "A5", "AX2", "A6"}
